@@ -348,7 +348,56 @@ func genRouterSrc(repo string) (string, error) {
 			}
 		}
 	}
+	// where the duplicate checks are made: generateHostWithPortConfig must refuse, at insertion time, a second default
+	// (ErrDuplicateVirtualHost), a repeated exact host:port (ErrDuplicateHostPort) and - inside a loop over ALL entries of
+	// the port - a repeated wildcard suffix (ErrDuplicateVirtualHost); NewRouters itself returns no duplicate error
+	dupOnInsert := false
+	if gd := FindFunc(f, "routersImpl", "generateHostWithPortConfig"); gd != nil {
+		nVH, nHP, inLoop := 0, 0, 0
+		var walk func(n ast.Node, loops int)
+		walk = func(n ast.Node, loops int) {
+			ast.Inspect(n, func(m ast.Node) bool {
+				switch x := m.(type) {
+				case *ast.RangeStmt:
+					if ast.Node(x) != n {
+						walk(x.Body, loops+1)
+						return false
+					}
+				case *ast.ForStmt:
+					if ast.Node(x) != n {
+						walk(x.Body, loops+1)
+						return false
+					}
+				case *ast.ReturnStmt:
+					if len(x.Results) == 1 {
+						switch selName(x.Results[0]) {
+						case "ErrDuplicateVirtualHost":
+							nVH++
+							if loops > 0 {
+								inLoop++
+							}
+						case "ErrDuplicateHostPort":
+							nHP++
+						}
+					}
+				}
+				return true
+			})
+		}
+		walk(gd.Body, 0)
+		inNew := 0
+		if nd := FindFunc(f, "", "NewRouters"); nd != nil {
+			ast.Inspect(nd.Body, func(m ast.Node) bool {
+				if x, ok := m.(*ast.ReturnStmt); ok && len(x.Results) == 2 && strings.HasPrefix(selName(x.Results[1]), "ErrDuplicate") {
+					inNew++
+				}
+				return true
+			})
+		}
+		dupOnInsert = nVH == 2 && inLoop == 1 && nHP == 1 && inNew == 0
+	}
 	var b strings.Builder
+	fmt.Fprintf(&b, "Definition duplicate_checks_on_insert := %v.\n", dupOnInsert)
 	fmt.Fprintf(&b, "Definition route_scan_is_linear := %v.\n", linear)
 	fmt.Fprintf(&b, "Definition host_fallback_default := %v.\n", fallback == 1)
 	fmt.Fprintf(&b, "Definition RouterSrc_translator_ok := %v.\n", fallback <= 1 && returnsNil == 1 && lowers == 1)
